@@ -375,7 +375,19 @@ func c02MaxSizeValues() []m.Packet {
 		{BT: m.XRRRT, NTP: 0x0102030405060708},
 		{BT: m.XRDLRR, Subs: []m.DLRRSub{{SSRC: 1, LastRR: 2, DLRR: 3}}},
 	}}
+	// a compound whose last member is exactly 65536 octets long: what remains of the datagram
+	// after the first two members is 2^16
+	app64k := &m.APP{Subtype: 1, SSRC: 3, Name: []byte("64kB"), Data: make([]byte, 65523)}
+	for i := range app64k.Data {
+		app64k.Data[i] = byte(i * 11)
+	}
+	compound64k := []m.Packet{
+		{Kind: m.KRR, RR: &m.RR{SSRC: 1}},
+		{Kind: m.KSDES, SDES: &m.SDES{Chunks: []m.SDESChunk{{Source: 1, Items: []m.SDESItem{{Type: 1, Text: []byte("cname")}}}}}},
+		{Kind: m.KAPP, APP: app64k},
+	}
 	return []m.Packet{
+		{Kind: m.KCOMPOUND, Compound: compound64k},
 		{Kind: m.KSR, SR: &m.SR{SSRC: 1, NTP: 2, RTP: 3, Packets: 4, Octets: 5, Reports: maxReports, Ext: make([]byte, just-28-31*24)}},
 		{Kind: m.KRR, RR: &m.RR{SSRC: 1, Reports: maxReports, Ext: make([]byte, just-8-31*24)}},
 		{Kind: m.KFIR, FIR: firJust},
@@ -411,6 +423,16 @@ func TestC02(t *testing.T) {
 			harness.Eval(subC02One.Name+"/max-size", 1)
 			harness.Class("max-size:"+string(p.Kind), 1)
 			harness.NonTrivialDistinct(1)
+		}
+	}
+	if harness.Cfg.Shard == 0 {
+		// a list through the datagram decoder whose tail is exactly 2^16 octets
+		for _, p := range c02MaxSizeValues() {
+			if p.Kind == m.KCOMPOUND {
+				subC02List.Check(t, listCase{Ps: []m.Packet{{Kind: m.KPLI, PLI: &m.FB{Sender: 1, Media: 2}}, p.Compound[2]}})
+				harness.Eval(subC02List.Name+"/max-size", 1)
+				harness.NonTrivialDistinct(1)
+			}
 		}
 	}
 	harness.RapidCheck(t, harness.Scale(5000, 40000), 2, func(rt *rapid.T) {
